@@ -161,7 +161,41 @@ def run(chk, binary):
                     chk.violation("spec:--linewise differs from the concatenation of the lines run alone",
                                   {"argv": ob["argv"], "stdin": sc["stdin"], "linewise_stdout": ob["out"].decode(errors="replace"),
                                    "concatenation": exp.decode(errors="replace")})
-    chk.cov["traces_validated_against_impl"] = len(scs)
+    # ---- --linewise asked for by a vic script: in its opts block, with the files as arguments or named in the block too ----
+    vjobs, vmeta = [], []
+    for _ in range(80 if thorough else 16):
+        nf = rng.choice([1, 2])
+        files = [(nm, rng.choice([t for t in INPUTS if len(split_lines(t)) >= 2 and "\\" not in t and "\r" not in t]).encode()) for nm in rng.sample(["in1.txt", "in2.txt", "data.csv"], nf)]
+        fl = rng.sample(["--serial", "--json"], rng.choice([0, 0, 1, 2]))
+        body_items = [rng.choice([("cut", "e"), ("cut", "$"), ("move", "w"), ("cut", "iw"), ("move", "x")]) for _ in range(rng.randint(1, 3))]
+        flags = ["--linewise"] + fl + [x for k_, a in body_items for x in (("-c" if k_ == "cut" else "-m"), a)]
+        body = "".join('%s "%s"\n' % (k_, a) for k_, a in body_items)
+        on = ["linewise"] + [{"--serial": "serial", "--json": "json"}[x] for x in fl]
+        names = [nm for nm, _ in files]
+        fopt = ('file = "%s"' % names[0]) if nf == 1 and rng.random() < 0.5 else ("files = [" + ", ".join('"%s"' % n_ for n_ in names) + "]")
+        forms = [("flags", flags, True), ("script + file arguments", ["opts { " + ", ".join(on) + " }\n" + body], True),
+                 ("files named in the opts block", ["opts { " + ", ".join(on + [fopt]) + " }\n" + body], False)]
+        for name, cmds, named in forms:
+            vjobs.append({"files": files, "opts": [], "cmds": cmds, "stdin": None, "unnamed": [] if named else names})
+        vmeta.append((forms, files))
+    vobs = D.scenarios_map(binary, vjobs)
+    for k_, (forms, files) in enumerate(vmeta):
+        obs3 = vobs[3 * k_: 3 * k_ + 3]
+        dist["vic-script/linewise"] = dist.get("vic-script/linewise", 0) + 1
+        chk.count(("c03-vic", tuple(forms[0][1]), tuple(files)), nontrivial=True)
+        expected_units = sorted((nm, l) for nm, t in files for l in split_lines(t.decode()))
+        for (name, cmds, _), ob in zip(forms, obs3):
+            got_units = sorted((u["file"], u["text"]) for u in ob["units"])
+            case = {"form": name, "argv": ob["argv"], "files": [(a, b.decode(errors="replace")) for a, b in files]}
+            if ob["rc"] == 0 and expected_units != got_units:
+                chk.violation("spec:units of work are not exactly the lines", dict(case, expected=expected_units[:10], got=got_units[:10]))
+                break
+            if (ob["rc"], ob["out"]) != (obs3[0]["rc"], obs3[0]["out"]):
+                chk.violation("spec:--linewise given in a script differs from --linewise given as a flag",
+                              dict(case, rc=[obs3[0]["rc"], ob["rc"]], stdout_flags=obs3[0]["out"].decode(errors="replace")[:400], stdout_form=ob["out"].decode(errors="replace")[:400],
+                                   stderr_form=ob["err"].decode(errors="replace")[-300:]))
+                break
+    chk.cov["traces_validated_against_impl"] = len(scs) + len(vjobs)
     chk.cov["input_distribution"] = dist
     chk.sample({"argv": obs[0]["argv"], "stdin": scs[0].get("stdin"), "stdout": obs[0]["out"].decode(errors="replace")[:300]})
     chk.cov["rule"] = ("--linewise runs (stdin and 1-2 file arguments, serial and parallel, plain/delimiter/template/JSON, 0..9 lines incl. empty lines, CRLF, missing final newline, multi-byte) with cut/edit/-g/-r command lists "
